@@ -9,10 +9,8 @@ package input
 // sequence of calls matters, which the verifier records in ghost call logs)
 //@ iface (d Dispatcher) Dispatch(buf []byte)
 //@   logged
-//@   modifies allof("calls:input.Dispatcher.Dispatch")
 //@ iface (d Dispatcher) IncNumInvalid()
 //@   logged
-//@   modifies allof("calls:input.Dispatcher.IncNumInvalid")
 
 // ---------------------------------------------------------------- plain.go (C12)
 // linesFrom(base, r, k): base followed by the first k lines of reader r, as Dispatch arguments
